@@ -50,6 +50,36 @@ class MatchModel:
             raise AnalysisError(f"LarkParser.parse is not evaluable: {[p.result for p in ps]}")
         return ps[0].result[1]
 
+    def matcher_texts(self, texts):
+        """interpret Matcher.__init__ (the place a match part is parsed in a run) for a sequence of match parts in one process (class-level
+        state is shared between the instances); returns for each the text whose tree was handed to the transformer"""
+        parsed = {}
+        fi = self.idx.method("Matcher", "__init__")
+
+        def h_parse(i, c, r, a, k):
+            t = Obj(f"TREE#{len(parsed)}")
+            parsed[t.name] = a[0]
+            return t
+
+        def h_transform(i, c, r, a, k):
+            i.record_call("transform", parsed.get(getattr(a[0], "name", None), repr(a[0])))
+            return []
+
+        it = Interp(self.idx, types={"LP": "LarkParser"}, unknown_calls="residual", inline={"LarkParser.parse"},
+                    handlers={"LarkParser": lambda i, c, r, a, k: Obj("LP"), "LP.parser.parse": h_parse, "LarkTransformer": lambda i, c, r, a, k: Obj("LT"),
+                              "LT.transform": h_transform, ".check_valid": lambda i, c, r, a, k: None})
+
+        def program(it):
+            for n, t in enumerate(texts):
+                it.types[f"m{n}"] = "Matcher"
+                it.call_function(fi, {"csvpath": None, "data": t, "line": None, "headers": ["a"], "myid": "id"}, f"m{n}")
+            return [v for kk, v in it.path.calls("transform")]
+
+        ps = it.run_program(program, {})
+        if len(ps) != 1 or ps[0].result[0] != "return":
+            raise AnalysisError(f"Matcher.__init__ is not evaluable on a match part: {[p.result for p in ps][:3]}")
+        return fi, ps[0].result[1]
+
     # ---------------------------------------------------------------- transformer
     def build(self, text):
         """('ok', structure) | ('parse-error', name) | ('ambiguous', n) | ('raise', typ)"""
@@ -91,10 +121,18 @@ class MatchModel:
             return new("Reference", i, name=k.get("name"))
 
         def h_term(i, c, r, a, k):
-            v = k.get("value")
-            if isinstance(v, str):
-                v = v.lstrip('"').rstrip('"')
-            return new("Term", i, value=v)
+            # the value a Term ends up with is what its own constructor hands to the base class
+            got = {}
+            o = new("Term", i, value=None)
+            sub = Interp(self.idx, types={o.name: "Term"}, unknown_calls="residual",
+                         handlers={"super": lambda i2, c2, r2, a2, k2: Obj("__super__"), "__super__.__init__": lambda i2, c2, r2, a2, k2: got.update(k2)})
+            a2 = dict(k)
+            a2["__pos__"] = list(a)
+            ps = sub.run_all(self.idx.method("Term", "__init__"), args=a2, selfkey=o.name)
+            if len(ps) != 1 or ps[0].result[0] != "return" or "value" not in got:
+                raise AnalysisError(f"Term.__init__ is not evaluable on {k}: {[p.result for p in ps][:2]}")
+            objs[o.name]["value"] = got["value"]
+            return o
 
         def h_expression(i, c, r, a, k):
             return new("Expression", i)
